@@ -154,6 +154,10 @@ func c38Ops(m *sx.Model, versioning bool) []sx.Op {
 			ops = append(ops, sx.Op{Kind: "Copy", SB: "bka", SK: sk, B: "bka", K: k, Opt: map[string]string{"range": "0-1"}})
 		}
 		for _, v := range b.Keys[k] {
+			if v.VID == "null" && b.Versioning != "" {
+				// the null version addressed explicitly (it may be hidden behind newer versions)
+				ops = append(ops, sx.Op{Kind: "Delete", B: "bka", K: k, V: "null"})
+			}
 			if v.VID != "null" {
 				ops = append(ops, sx.Op{Kind: "Delete", B: "bka", K: k, V: v.VID})
 				if !v.Marker {
@@ -199,7 +203,10 @@ func TestC38(t *testing.T) {
 		{Kind: "Put", B: "bka", K: "k1", Body: "a", Opt: map[string]string{"ct": "a/b", "tags": "t=1"}},
 		{Kind: "Put", B: "bka", K: "k1", Body: "b", Opt: map[string]string{"ct": "a/b", "tags": "t=2"}},
 		{Kind: "Put", B: "bka", K: "k 2", Body: "e", Opt: map[string]string{"ct": "a/b"}}}
-	v := &sx.Search{Run: run, TestRun: "^TestWorker$", Spec: sx.SpecByName("C38v"), Depth: 1, Stacks: []string{world.StackSQL}, Seeds: [][]sx.Op{vseed}}
+	// a null version written before versioning was enabled, hidden behind a newer version
+	nseed := []sx.Op{{Kind: "CreateBucket", B: "bka"}, {Kind: "Put", B: "bka", K: "k1", Body: "a", Opt: map[string]string{"ct": "a/b", "tags": "t=0"}},
+		{Kind: "PutVersioning", B: "bka", Opt: map[string]string{"status": "Enabled"}}, {Kind: "Put", B: "bka", K: "k1", Body: "b", Opt: map[string]string{"ct": "a/b"}}}
+	v := &sx.Search{Run: run, TestRun: "^TestWorker$", Spec: sx.SpecByName("C38v"), Depth: 1, Stacks: []string{world.StackSQL}, Seeds: [][]sx.Op{vseed, nseed}}
 	if !quick() {
 		v.Depth = 2
 		v.Seeds = append(v.Seeds, s.Seeds...)
